@@ -83,8 +83,9 @@ def struct_family(tier, seed):
     return defs
 
 
-def render_struct(d, idx, derive, tw_attr=None):
-    """Rust text of the definition; derive None = the derive-free twin."""
+def render_struct(d, idx, derive, tw_attr=None, alias=False):
+    """Rust text of the definition; derive None = the derive-free twin.  alias: every field type is spelled
+    through a one-identifier type alias W<k> (the #[transparent(..)] attribute only takes an identifier)."""
     name = NAMES[d["name"]] if d["name"] else "S"
     attrs, _, _, _, _ = REPRS[d["repr"]]
     lines = []
@@ -118,6 +119,14 @@ def render_struct(d, idx, derive, tw_attr=None):
         body = "(%s);" % ", ".join("pub " + t for t in ftys)
     else:
         body = " { %s }" % ", ".join("pub f%d: %s" % (i, t) for i, t in enumerate(ftys))
+    if alias:
+        al = ["type W%d = %s;" % (k, t) for k, t in enumerate(ftys)]
+        wt = ["W%d" % k for k in range(len(ftys))]
+        if d["kind"] == 1:
+            body = "(%s);" % ", ".join("pub " + t for t in wt)
+        elif not (d["kind"] == 2 and not ftys):
+            body = " { %s }" % ", ".join("pub f%d: %s" % (i, t) for i, t in enumerate(wt))
+        lines = al + lines
     lines.append("pub %s %s%s%s" % (kw, name, gen, body))
     return "\n".join(lines), name, ftys
 
@@ -260,8 +269,12 @@ def struct_modules(defs):
                 if len(ftys) >= 2:
                     variants.append(("a0", ftys[0]))
                     variants.append(("a1", ftys[1]))
+                    if d["gen"] == 0:
+                        # the attribute naming each field in turn through an identifier alias (zero-sized ones included)
+                        variants.append(("b0", "W0"))
+                        variants.append(("b1", "W1"))
                 for tag, attr in variants:
-                    t2, _, _ = render_struct(d, i, der, attr)
+                    t2, _, _ = render_struct(d, i, der, attr, alias=tag.startswith("b"))
                     mods.append(("s%d_%s%s" % (i, der, tag), t2 + "\npub fn facts() -> String { String::from(\"ok\") }"))
             else:
                 t2, _, _ = render_struct(d, i, der)
@@ -300,7 +313,7 @@ def offset_modules(defs):
         if d["kind"] not in (0, 1) or d["gen"] != 0 or not d["fields"]:
             continue
         txt, name, ftys = render_struct(d, i, None)
-        txt = txt.replace("#[derive(Clone, Copy)]", "#[derive(Clone, Copy)]")
+        txt = txt.replace("#[derive(Clone, Copy)]", "")   # not Copy: the macro must not move out of its instance argument
         vals = [LEAF_VALUES[f] for f in d["fields"]]
         if d["kind"] == 0:
             inst = "%s { %s }" % (name, ", ".join("f%d: %s" % (k, v) for k, v in enumerate(vals)))
@@ -311,8 +324,12 @@ def offset_modules(defs):
             fname = ("f%d" % k) if d["kind"] == 0 else str(k)
             body = (txt + "\n" + dflt + "\npub fn facts() -> String {\n"
                     "  let a = std::panic::catch_unwind(|| bytemuck::offset_of!(%s, %s) as i64).unwrap_or(-2);\n"
-                    "  let b = std::panic::catch_unwind(|| bytemuck::offset_of!(<%s as Default>::default(), %s, %s) as i64).unwrap_or(-2);\n"
-                    "  format!(\"{} {} {}\", a, b, core::mem::offset_of!(%s, %s)) }" % (name, fname, name, name, fname, name, fname))
+                    "  let b = std::panic::catch_unwind(|| { let x = bytemuck::offset_of!(<%s as Default>::default(), %s, %s) as i64;\n"
+                    "    // the three-argument form borrows its instance: a named instance is usable again, also through a reference\n"
+                    "    let inst = <%s as Default>::default(); let r = &inst;\n"
+                    "    let y = bytemuck::offset_of!(inst, %s, %s) as i64; let z = bytemuck::offset_of!(*r, %s, %s) as i64; let w = bytemuck::offset_of!(inst, %s, %s) as i64;\n"
+                    "    if x == y && y == z && z == w { x } else { -3 } }).unwrap_or(-2);\n"
+                    "  format!(\"{} {} {}\", a, b, core::mem::offset_of!(%s, %s)) }" % (name, fname, name, name, fname, name, name, fname, name, fname, name, fname, name, fname))
             mods.append(("s%d_off%d" % (i, k), body))
     for (m, text, must) in DEREF_CASES:
         mods.append((m, text))
@@ -365,7 +382,7 @@ def struct_lines(defs, verdicts, facts):
         for di, der in enumerate(DERIVES):
             variants = [("", None)]
             if der == "TransparentWrapper" and len(fd) >= 2:
-                variants += [("a0", fd[0][0]), ("a1", fd[1][0])]
+                variants += [("a0", fd[0][0]), ("a1", fd[1][0]), ("b0", 0), ("b1", 1)]
             for tag, attr in variants:
                 mod = "s%d_%s%s" % (i, der, tag)
                 if mod not in verdicts:
@@ -373,8 +390,9 @@ def struct_lines(defs, verdicts, facts):
                 obs = 1 if verdicts[mod] is None else 0
                 wrapped = attr if attr is not None else (fd[0][0] if len(fd) == 1 else None)
                 v = [obs, di, d["kind"], C, tr, packed, align, 1 if d["gen"] else 0, capture, 1 if attr is not None else 0, size_obs, len(fd)]
-                for (rust, sz, al, mask) in fd:
-                    v += [sz, al, mask + (64 if (der == "TransparentWrapper" and wrapped is not None and rust == wrapped) else 0)]
+                for fk, (rust, sz, al, mask) in enumerate(fd):
+                    is_w = (fk == wrapped) if isinstance(wrapped, int) else (wrapped is not None and rust == wrapped)
+                    v += [sz, al, mask + (64 if (der == "TransparentWrapper" and is_w) else 0)]
                 lines.append("501 0 0 0 0 0 0 0 %d - ; V %s ; %s ; 3" % (i, " ".join(str(x) for x in v), mod))
         if (C or tr) and d["kind"] in (0, 1, 2) and not tr and len(offs) == len(fd):
             v = [C, tr, packed, align, size_obs, align_obs, len(fd)]
@@ -626,15 +644,16 @@ def ck_lay(t):
         s, a, _ = ck_layout_c(t[1], t[2], [ck_lay(f) for f in t[3]])
         return s, a
     rk, tagty, vs = t[1], t[2], t[3]
+    ea = t[4] if len(t) > 4 else 0          # align(N) modifier on the enum
     ts = INT_TYPES[tagty][0] // 8
     if rk == 2:
         ls = [ck_layout_c(0, 0, [(ts, ts)] + [ck_lay(f) for f in v[1]]) for v in vs]
-        a = max([ts] + [l[1] for l in ls])
+        a = max([ts, ea] + [l[1] for l in ls])
         return ck_round_up(max([ts] + [l[0] for l in ls]), a), a
     ls = [ck_layout_c(0, 0, [ck_lay(f) for f in v[1]]) for v in vs]
     ua = max([1] + [l[1] for l in ls])
     us = ck_round_up(max([0] + [l[0] for l in ls]), ua)
-    s, a, _ = ck_layout_c(0, 0, [(ts, ts), (us, ua)])
+    s, a, _ = ck_layout_c(0, ea, [(ts, ts), (us, ua)])
     return s, a
 
 
@@ -648,7 +667,7 @@ def ck_encode(t):
         return out
     rk, tagty, vs = t[1], t[2], t[3]
     bits, signed = INT_TYPES[tagty]
-    out = [2, rk, bits // 8, signed, len(vs)]
+    out = [2, rk, bits // 8, signed, (t[4] if len(t) > 4 else 0), len(vs)]
     for (disc, fs) in vs:
         out += [disc, len(fs)]
         for f in fs:
@@ -743,7 +762,7 @@ def ck_render(t, name, out_defs):
             ", ".join(rep), name, ", ".join("pub g%d: %s" % (k, ty) for k, ty in enumerate(ftys))))
         return name
     rk, tagty, vs = t[1], t[2], t[3]
-    rep = {1: "C", 2: tagty, 3: "C, " + tagty}[rk]
+    rep = {1: "C", 2: tagty, 3: "C, " + tagty}[rk] + (", align(%d)" % t[4] if len(t) > 4 and t[4] else "")
     vtxt = []
     for k, (disc, fs) in enumerate(vs):
         ftys = [ck_render(f, "%s_v%d_%d" % (name, k, j), out_defs) for j, f in enumerate(fs)]
@@ -777,7 +796,9 @@ def checked_family(tier, seed):
         vs = [(d, [rand_ty(depth + 1) for _ in range(rnd.randint(0, 3))]) for d in discs]
         if all(len(v[1]) == 0 for v in vs):
             vs[0] = (vs[0][0], [L[3]])
-        return ("enum", rk, tagty, vs)
+        # an align(N) modifier on the enum itself (larger than its natural alignment more often than not)
+        ea = rnd.choice([0, 0, 0, 0, 2, 4, 8, 16])
+        return ("enum", rk, tagty, vs, ea)
 
     def rand_ty(depth):
         r = rnd.random()
@@ -792,6 +813,9 @@ def checked_family(tier, seed):
         ("struct", 0, 0, [L[0], L[2], L[3]]), ("struct", 1, 0, [L[0], L[2], L[3]]), ("struct", 0, 16, [L[3], L[4]]),
         ("struct", 0, 0, [("struct", 0, 0, [L[3], L[1]]), L[5]]), ("enum", 3, "u16", [(1, [("struct", 0, 0, [L[3], L[2]])]), (3, [L[4]])]),
         ("enum", 2, "i8", [(-1, [L[3]]), (0, [L[6]]), (1, [])]), ("struct", 2, 0, [L[0], L[2], L[1]]),
+        # over-aligned enums with fields, and one nested in a struct
+        ("enum", 2, "u8", [(0, [L[0]]), (1, [])], 4), ("enum", 3, "u8", [(0, [L[3]]), (2, [L[1]])], 8), ("enum", 1, "i32", [(0, [L[3]]), (1, [])], 16),
+        ("struct", 0, 0, [L[0], ("enum", 2, "u8", [(0, [L[3]]), (1, [L[0]])], 4)]),
     ]
     defs = list(corpus)
     while len(defs) < n:
